@@ -18,6 +18,7 @@ import (
 	"os/exec"
 	"path/filepath"
 	"reflect"
+	"runtime"
 	"testing"
 	"unsafe"
 
@@ -130,6 +131,7 @@ func TestVerif_C09_APIChild(t *testing.T) {
 	if os.Getenv("VERIF_C09_CHILD") == "" {
 		t.Skip("only run under the tracer")
 	}
+	runtime.LockOSThread() // the tracer follows ONE thread: the calls must not migrate
 	pb, err := os.ReadFile(os.Getenv("VERIF_C09_PLAN"))
 	if err != nil {
 		t.Fatal(err)
